@@ -794,7 +794,11 @@ func (c *FnCtx) loadLocKeyed(st *State, loc *Loc) SV {
 	case 2:
 		return If{Tag: read(ls[0]), ID: read(ls[1])}
 	case 4:
-		return Sl{read(ls[0]), read(ls[1]), read(ls[2]), read(ls[3])}
+		sl := Sl{read(ls[0]), read(ls[1]), read(ls[2]), read(ls[3])}
+		if c.vc.quant == 0 {
+			c.vc.Assert(And(App(SBool, "<=", IntLit(0), sl.Off), App(SBool, "<=", IntLit(0), sl.Len), App(SBool, "<=", sl.Len, sl.Cap)))
+		}
+		return sl
 	}
 	c.abstract("unsupported map value type " + t.String())
 	return c.freshValue(t, "mv")
